@@ -29,6 +29,7 @@ type c17Op struct {
 	Elem  string `json:"elem,omitempty"`  // element pointer (expandschema*), reference (resolve), pointer (pointer)
 	Cache string `json:"cache,omitempty"` // none | own | shared
 	Yield int    `json:"yield,omitempty"` // runtime.Gosched() calls before the op
+	World int    `json:"world,omitempty"` // 1: the op works on the second set of documents (same URLs, other content), through its own loader
 }
 
 type c17Plan struct {
@@ -36,21 +37,45 @@ type c17Plan struct {
 	GoMaxProcs int           `json:"gomaxprocs"`
 	Goroutines [][]c17Op     `json:"goroutines"`
 	Fresh      bool          `json:"fresh_process"` // run in a fresh process (first-use races of lazily initialised package state)
+	// Alt: a second set of documents under the same URLs (every title prefixed): goroutines working on "distinct
+	// documents", each through its own loader. LoaderDelayUS makes the loaders slow, so that retrievals overlap.
+	Alt           map[string]string `json:"alt_docs,omitempty"`
+	LoaderDelayUS int               `json:"loader_delay_us,omitempty"`
 }
 
 type c17Env struct {
 	plan        c17Plan
-	loader      *memLoader
-	sharedRoot  *spec.Swagger
+	docs        [2]map[string]string
+	loaders     [2]*memLoader
+	sharedRoots [2]*spec.Swagger
 	sharedCache *logCache
 }
 
 func newC17Env(p c17Plan) (*c17Env, error) {
-	e := &c17Env{plan: p, loader: newLoader(p.Graph.Docs, nil), sharedRoot: new(spec.Swagger), sharedCache: newLogCache()}
-	if err := json.Unmarshal([]byte(p.Graph.Docs[p.Graph.Root]), e.sharedRoot); err != nil {
-		return nil, err
+	e := &c17Env{plan: p, sharedCache: newLogCache()}
+	e.docs[0], e.docs[1] = p.Graph.Docs, p.Alt
+	for w := 0; w < 2; w++ {
+		if e.docs[w] == nil {
+			continue
+		}
+		e.loaders[w] = newLoader(e.docs[w], nil)
+		e.sharedRoots[w] = new(spec.Swagger)
+		if err := json.Unmarshal([]byte(e.docs[w][p.Graph.Root]), e.sharedRoots[w]); err != nil {
+			return nil, err
+		}
 	}
 	return e, nil
+}
+
+// load: the loader of one world, slowed down when the plan says so.
+func (e *c17Env) load(w int) func(string) (json.RawMessage, error) {
+	l, delay := e.loaders[w], time.Duration(e.plan.LoaderDelayUS)*time.Microsecond
+	return func(p string) (json.RawMessage, error) {
+		if delay > 0 {
+			time.Sleep(delay)
+		}
+		return l.load(p)
+	}
 }
 
 func (e *c17Env) run(op c17Op) (out []byte, errText string) {
@@ -62,7 +87,11 @@ func (e *c17Env) run(op c17Op) (out []byte, errText string) {
 	for i := 0; i < op.Yield; i++ {
 		runtime.Gosched()
 	}
-	opts := &spec.ExpandOptions{RelativeBase: e.plan.Graph.Root, PathLoader: e.loader.load}
+	w := op.World
+	if w != 0 && e.docs[1] == nil {
+		return nil, "harness: no second world in this plan"
+	}
+	opts := &spec.ExpandOptions{RelativeBase: e.plan.Graph.Root, PathLoader: e.load(w)}
 	var cache spec.ResolutionCache
 	switch op.Cache {
 	case "own":
@@ -73,7 +102,7 @@ func (e *c17Env) run(op c17Op) (out []byte, errText string) {
 	switch op.Op {
 	case "expandspec":
 		var sw spec.Swagger
-		if err := json.Unmarshal([]byte(e.plan.Graph.Docs[e.plan.Graph.Root]), &sw); err != nil {
+		if err := json.Unmarshal([]byte(e.docs[w][e.plan.Graph.Root]), &sw); err != nil {
 			return nil, "harness: " + err.Error()
 		}
 		if err := spec.ExpandSpec(&sw, opts); err != nil {
@@ -81,7 +110,7 @@ func (e *c17Env) run(op c17Op) (out []byte, errText string) {
 		}
 		out, _ = json.Marshal(&sw)
 	case "expandschema", "expandschema-root":
-		g := e.plan.Graph.Graph()
+		g := gen.GraphCase{Root: e.plan.Graph.Root, Docs: e.docs[w]}.Graph()
 		n, err := g.Get(model.Pos{Doc: e.plan.Graph.Root, Ptr: op.Elem})
 		if err != nil {
 			return nil, "harness: " + err.Error()
@@ -93,7 +122,7 @@ func (e *c17Env) run(op c17Op) (out []byte, errText string) {
 		if op.Op == "expandschema" {
 			err = spec.ExpandSchemaWithBasePath(&s, cache, opts)
 		} else {
-			err = spec.ExpandSchema(&s, e.sharedRoot, cache) // shared read-only typed root
+			err = spec.ExpandSchema(&s, e.sharedRoots[w], cache) // shared read-only typed root
 		}
 		if err != nil {
 			errText = err.Error()
@@ -104,13 +133,13 @@ func (e *c17Env) run(op c17Op) (out []byte, errText string) {
 		if err != nil {
 			return nil, "harness: " + err.Error()
 		}
-		s, err := spec.ResolveRefWithBase(e.sharedRoot, &r, opts)
+		s, err := spec.ResolveRefWithBase(e.sharedRoots[w], &r, opts)
 		if err != nil {
 			errText = err.Error()
 		}
 		out, _ = json.Marshal(s)
 	case "marshal":
-		b, err := json.Marshal(e.sharedRoot)
+		b, err := json.Marshal(e.sharedRoots[w])
 		if err != nil {
 			errText = err.Error()
 		}
@@ -120,7 +149,7 @@ func (e *c17Env) run(op c17Op) (out []byte, errText string) {
 		if err != nil {
 			return nil, "harness: " + err.Error()
 		}
-		v, _, err := p.Get(e.sharedRoot)
+		v, _, err := p.Get(e.sharedRoots[w])
 		if err != nil {
 			errText = err.Error()
 		}
@@ -150,7 +179,7 @@ func executePlan(p c17Plan) *vstat.Failure {
 		return f
 	}
 	old := spec.PathLoader
-	spec.PathLoader = e.loader.load
+	spec.PathLoader = e.load(0)
 	defer func() { spec.PathLoader = old }()
 	prev := runtime.GOMAXPROCS(p.GoMaxProcs)
 	defer runtime.GOMAXPROCS(prev)
@@ -272,6 +301,29 @@ func genC17(t *rapid.T) c17Plan {
 	o.MaxDocs = 3
 	o.DagPct = 60
 	g := gen.Graph(t, o)
+	// every plan encodes simple-schema arrays too (array parameters and headers, nested items): their encoders are
+	// code of their own
+	{
+		var root map[string]any
+		if json.Unmarshal([]byte(g.Docs[g.Root]), &root) == nil {
+			items := map[string]any{"type": "array", "collectionFormat": "csv", "items": map[string]any{"type": "array", "items": map[string]any{"type": "integer", "format": "int32", "x-leaf": true}}}
+			params, _ := root["parameters"].(map[string]any)
+			if params == nil {
+				params = map[string]any{}
+				root["parameters"] = params
+			}
+			for i, n := 0, 1+gen.Uniform(t, "arrayparams", 3); i < n; i++ {
+				params[fmt.Sprintf("c17-arr-%d", i)] = map[string]any{"name": fmt.Sprintf("arr%d", i), "in": "query", "type": "array", "items": items, "x-n": i}
+			}
+			resps, _ := root["responses"].(map[string]any)
+			if resps == nil {
+				resps = map[string]any{}
+				root["responses"] = resps
+			}
+			resps["c17-hdr"] = map[string]any{"description": "with array headers", "headers": map[string]any{"X-List": map[string]any{"type": "array", "items": items}, "X-Rate": map[string]any{"type": "integer"}}}
+			g.Docs[g.Root] = string(mustJSON(root))
+		}
+	}
 	mg := g.Graph()
 	var schemaElems, ptrs []string
 	for _, el := range mg.TopElements(g.Root) {
@@ -288,7 +340,15 @@ func genC17(t *rapid.T) c17Plan {
 			usable = append(usable, p)
 		}
 	}
+	twoWorlds := gen.Pct(t, "two worlds", 35)
 	p := c17Plan{Graph: g, GoMaxProcs: []int{1, 2, 4, 16}[gen.Uniform(t, "gomaxprocs", 4)], Fresh: gen.Pct(t, "fresh", 12)}
+	if twoWorlds {
+		p.Alt = map[string]string{}
+		for u, d := range g.Docs {
+			p.Alt[u] = strings.ReplaceAll(d, `"title":"`, `"title":"w1-`)
+		}
+		p.LoaderDelayUS = []int{0, 50, 300, 1000}[gen.Uniform(t, "loader delay", 4)]
+	}
 	ng := []int{2, 4, 8, 16}[gen.Uniform(t, "goroutines", 4)]
 	for gi := 0; gi < ng; gi++ {
 		var ops []c17Op
@@ -307,11 +367,21 @@ func genC17(t *rapid.T) c17Plan {
 			case k == 5 && len(schemaElems) > 0:
 				op.Op = "resolve"
 				op.Elem = "#" + fragmentEsc(schemaElems[gen.Uniform(t, "elem", len(schemaElems))])
-			case k == 6:
+			case k == 6 || (k == 7 && rapid.Bool().Draw(t, "more marshal")):
 				op.Op = "marshal"
 			default:
 				op.Op = "pointer"
 				op.Elem = usable[gen.Uniform(t, "ptr", len(usable))]
+			}
+			if twoWorlds && gi%2 == 1 {
+				// the odd goroutines work on the other documents, through entry points that are given their loader
+				op.World = 1
+				if op.Op == "expandschema-root" {
+					op.Op = "expandschema"
+				}
+				if op.Cache == "shared" {
+					op.Cache = "own"
+				}
 			}
 			ops = append(ops, op)
 		}
@@ -343,6 +413,8 @@ func TestC17(t *testing.T) {
 		r.Label(fmt.Sprintf("goroutines=%d", len(p.Goroutines)))
 		r.Label(fmt.Sprintf("GOMAXPROCS=%d", p.GoMaxProcs))
 		r.LabelIf(p.Fresh, "fresh process (first-use of lazy state)")
+		r.LabelIf(p.Alt != nil, "two sets of documents under the same URLs, each with its own loader")
+		r.LabelIf(p.LoaderDelayUS > 0, "slow loaders (overlapping retrievals)")
 		shared := 0
 		for _, ops := range p.Goroutines {
 			for _, op := range ops {
